@@ -231,6 +231,7 @@ class Replay:
         self.kids = {}      # proc -> (pid, outfile)
         self.k = {}         # proc -> index of the pending gate
         self.done = {}
+        self.history = []
         self.at = {}
         self.timeout = timeout
         self.problem = None
@@ -263,7 +264,15 @@ class Replay:
             if a == "Submit":
                 env = {"VERIF_GATE_DIR": str(self.scn.gate), "VERIF_GATE_POINTS": ",".join(JOB_POINTS),
                        "VERIF_GATE_TIMEOUT": str(self.timeout + 10)}
+                if p in self.kids and p not in self.done:
+                    self._drain(p)               # let the previous call of this label return first
                 self.k[p] = 0
+                if p in self.done:               # a further submission by the same process label
+                    self.history.append(dict(self.done.pop(p), proc=p))
+                self.at.pop(p, None)
+                # gate files of the previous submission of this label must not be mistaken for new ones
+                for f in self.scn.gate.glob(f"{p}.*"):
+                    f.unlink()
                 self.kids[p] = spawn(self.scn, p, self.task, st.get("rerun", False), env, st.get("use_ro", False))
                 got = self._wait_announce(p, "pre_run")
                 if got != "pre_run":
@@ -303,21 +312,23 @@ class Replay:
             if got != expect:
                 return self._fail(i, st, got)
         # let everybody still alive run to completion
-        for p, (pid, of) in self.kids.items():
-            if p in self.done:
-                continue
-            deadline = time.time() + self.timeout
-            while p not in self.done:
-                path = self.scn.gate / f"{p}.{self.k[p]}.go"
-                path.touch()
-                got = self._wait_announce(p, None)
-                if got == "exited":
-                    break
-                if got == "timeout" or time.time() > deadline:
-                    os.kill(pid, signal.SIGKILL)
-                    os.waitpid(pid, 0)
-                    self.done[p] = {"status": "timeout"}
+        for p in list(self.kids):
+            if p not in self.done:
+                self._drain(p)
         return self.done, self.problem
+
+    def _drain(self, p):
+        pid, of = self.kids[p]
+        deadline = time.time() + self.timeout
+        while p not in self.done:
+            (self.scn.gate / f"{p}.{self.k[p]}.go").touch()
+            got = self._wait_announce(p, None)
+            if got == "exited":
+                break
+            if got == "timeout" or time.time() > deadline:
+                os.kill(pid, signal.SIGKILL)
+                os.waitpid(pid, 0)
+                self.done[p] = {"status": "timeout"}
 
     def _fail(self, i, st, got):
         self.problem = {"step": i, "expected_after": AFTER.get(st["a"]), "action": st, "got": got}
@@ -553,7 +564,7 @@ def execute(spec):
         else:
             rp = Replay(scn, task_name, timeout=spec.get("timeout", 20))
             done, problem = rp.run(spec["steps"])
-            outs = [dict(v, proc=p) for p, v in sorted(done.items())]
+            outs = rp.history + [dict(v, proc=p) for p, v in sorted(done.items())]
         raw = read_log(scn.log)
         after = {str(r): snapshot(r) for r in scn.ros}
         jobdir = scn.root / donor.name
